@@ -4,6 +4,7 @@
      R <idx> <file|net> <target> <hex>      Decoder.Decode of the raw input bytes into the target
      U <idx> <type> <target> <hex>          RawMessage{Type,Data}.Unmarshal(&target)
      S <idx> <type> <hex>                   RawMessage{Type,Data}.String()
+     D <idx> <file|net> st:<shape> <hex1> <hex2>   Decode hex1 into a fresh value (must succeed), then hex2 into the SAME value
    targets: any map raw dyn snbt skip ty:<type> st:<shape>
    shapes (prefix notation, no spaces):
      b:<type>  any  map  raw  p(<shape>)  l(<shape>)  a<n>:<type>  s{<namehex>=<shape>;...}
@@ -176,6 +177,15 @@ let () = iter_lines (fun line ->
     match split_ws line with
     | ["R"; idx; f; target; h] -> run_target ("R " ^ idx) (Some (fmt_of f)) (n_of_int 0) target (bytes_of_hex h)
     | ["U"; idx; ty; target; h] -> run_target ("U " ^ idx) None (n_of_int (int_of_string ty)) target (bytes_of_hex h)
+    | ["D"; idx; f; target; h1; h2] when has_prefix "st:" target ->
+        (* a second document decoded into the destination the first one left *)
+        let sh = parse_shape (after "st:" target) in
+        let f = fmt_of f in
+        let b1 = bytes_of_hex h1 and b2 = bytes_of_hex h2 in
+        let fuel b = nat_add (sdepth sh) (nat_of_int (List.length b + 2)) in
+        (match run_fast (decode f (dec_st (fuel b1) sh (zero sh))) b1 with
+         | FOk ((_, v1), _) -> show ("D " ^ idx) pr_sval (run_fast (decode f (dec_st (fuel b2) sh v1)) b2)
+         | _ -> Printf.printf "D %s first-err\n" idx)
     | ["S"; idx; ty; h] ->
         let data = bytes_of_hex h in
         (match raw_string (nat_of_int (List.length data + 2)) (n_of_int (int_of_string ty)) data with
